@@ -1,5 +1,5 @@
 (* C10 — concurrent requests and block events behave as if executed one at a time.
-   Statements only (proofs: ConcTowerProofs.v, ConcBreach.v, ConcLin.v, ConcReg.v, ConcPurge.v, ConcCoarse.v, ConcDisc.v, ConcComm.v, ConcRW.v, ConcMix.v).  Model: ConcTower.v — the thread
+   Statements only (proofs: ConcTowerProofs.v, ConcBreach.v, ConcLin.v, ConcReg.v, ConcPurge.v, ConcCoarse.v, ConcDisc.v, ConcComm.v, ConcRW.v, ConcMix.v, TowerCache.v).  Model: ConcTower.v — the thread
    programs of register / add_appointment / get_appointment / get_subscription_info / block connected / block disconnected at
    lock-acquisition granularity, `run_sched` = all interleavings at EVENT granularity (every lock
    acquisition, release, action under locks and atomic height access is a step of its own).
@@ -9,6 +9,8 @@
      C10_no_missed_breach                          add || block with the dispute: accepted => tracker, or row gone, or -27
      C10_no_missed_breach_refined                  the same with the hypothesis on the locator cache discharged from the C19
                                                    refinement: cache represents a window (RepW), capacity >= 1, block valid
+     C10_cache_refinement_init, C10_cache_refinement_step   RepW is established by init and kept by every step under the
+                                                   chain discipline: a reachable invariant
      C10_guard_spanning_lookup_and_store_is_necessary   with the cache guard dropped before the store the breach is missed
      C10_tables_are_statement_sequences, C10_no_orphan_records   any number of threads: FK integrity always
      C10_lock_protects_data, C10_slot_rmw_atomic, C10_data_stable_while_locked
@@ -75,7 +77,7 @@
    sequential run (the check compares sorted rows).  A proof needs the model's look-ups to be invariant under row
    permutation first; not attempted here. *)
 From TeosModel Require Import Base TxIndex Tower TowerInv Crash ConcTower ConcTowerProofs ConcBreach ConcLin ConcReg ConcPurge ConcCoarse ConcDisc ConcComm ConcRW ConcMix.
-From TeosModel Require Import TxIndexProofs.
+From TeosModel Require Import TxIndexProofs TowerLive TowerCache.
 From Coq Require Import Permutation.
 From TeosModel.Gen Require Consts.
 Local Open Scope N_scope.
@@ -158,6 +160,24 @@ Theorem C10_no_missed_breach_refined le sc t0 u loc b delay sig hash txs h n w s
 Proof.
   intros Hin HR Hn Hv. exact (accepted_then_watched_or_gone_refined le sc t0 u loc b txs hash h delay sig n w sched tf r Hin HR Hn Hv).
 Qed.
+
+(* ... and RepW is an invariant of the reachable tower: `init` establishes it (bootstrap blocks with distinct hashes, no
+   locator in two of them) and every step of the sequential tower keeps it as long as the operation it performs on the
+   cache is valid in the window (the chain discipline: TxIndex.valid_op); BigInv / envb: TowerLive's invariant and
+   envelope (C11).  So the hypotheses of C10_no_missed_breach_refined are the reachable invariant + the chain discipline. *)
+Theorem C10_cache_refinement_init c h0 blocks t :
+  init c h0 blocks = Some t ->
+  let l := map (fun b : N * list N => cache_block (fst b) (snd b))
+               (sublist (Z.to_nat Consts.WATCHER_CACHE_FROM) (Z.to_nat Consts.WATCHER_CACHE_TO) blocks) in
+  NoDup (map (@ib_hash N) l) -> NoDup (all_keys (rev l)) ->
+  RepW (length l) (w_cache t) (mk_window (rev l) (Z.of_N h0)).
+Proof. exact (cache_refines_init c h0 blocks t). Qed.
+
+Theorem C10_cache_refinement_step le t o sc n w :
+  BigInv t -> envb t o = true -> RepW n (w_cache t) w ->
+  (forall c, cache_op t o = Some c -> valid_op w c) ->
+  RepW n (w_cache (fst (step le t o sc))) (match cache_op t o with Some c => w_step n w c | None => w end).
+Proof. exact (cache_refines_step le t o sc n w). Qed.
 
 (* ---- no record without its owner ------------------------------------------------------------------
    Any number of threads running thread programs of the quantifier, any schedule, aborts included: the
@@ -634,6 +654,8 @@ Print Assumptions C10_reader_purge_reply_not_linearizable.
 Print Assumptions C10_reader_add_reply_not_linearizable.
 Print Assumptions C10_reader_block_reply_not_linearizable.
 Print Assumptions C10_no_missed_breach_refined.
+Print Assumptions C10_cache_refinement_init.
+Print Assumptions C10_cache_refinement_step.
 Print Assumptions C10_get_disconnect_linearizable.
 Print Assumptions C10_getsub_disconnect_linearizable.
 Print Assumptions C10_register_disconnect_linearizable.
